@@ -19,6 +19,7 @@ import (
 	"math/big"
 	"os"
 	"path/filepath"
+	"runtime/debug"
 	"sort"
 	"strings"
 
@@ -28,6 +29,18 @@ import (
 type FldV struct{ id int }
 type FldPad struct{}
 type BoolF struct{ id int } // 0/1 integer produced by a field predicate (Equal, IsNegative, IsZero) or a symbolic choice
+
+type ByteV struct{ id, i int }       // byte i of the 32-byte string node id
+type Bit7 struct{ id int }           // (predicate node id) << 7, as a byte
+type CondF struct {                  // a Go bool: (node id != 0) != neg
+	id  int
+	neg bool
+}
+type fdec struct {
+	id     int
+	neg, d bool
+	segEnd int
+}
 
 type FOp struct {
 	kind    string
@@ -43,6 +56,67 @@ type FEmitter struct {
 	inKinds []string // "fe" | "bool"
 	consts  map[string]int
 	summ    map[string]bool
+	// branches on predicate values (decision-tree mode, like forkMode of the limb level)
+	script    []bool
+	decisions []fdec
+	root      map[int]int // bytes node -> the node it was derived from by changing bit 255 only
+}
+
+func (e *FEmitter) rootOf(id int) int {
+	for {
+		r, ok := e.root[id]
+		if !ok {
+			return id
+		}
+		id = r
+	}
+}
+
+// freadBytes: the 32-byte string node held by 32 byte cells
+func (in *Interp) freadBytes(cells []*Cell) int {
+	if len(cells) != 32 {
+		fail("field-level: byte string of %d bytes (in %s)", len(cells), in.curFn)
+	}
+	if _, conc := cells[0].val.(Conc); conc {
+		v := new(big.Int)
+		for i, c := range cells {
+			cv, ok := c.val.(Conc)
+			if !ok {
+				fail("field-level: byte string partly symbolic (in %s)", in.curFn)
+			}
+			v.Add(v, new(big.Int).Lsh(cv.v, uint(8*i)))
+		}
+		return in.fl.emit(FOp{kind: "bytesConst", n: v})
+	}
+	top, ok := cells[31].val.(ByteV)
+	if !ok || top.i != 31 {
+		fail("field-level: byte 31 of a byte string is %T (in %s)", cells[31].val, in.curFn)
+	}
+	r := in.fl.rootOf(top.id)
+	for i, c := range cells[:31] {
+		b, ok := c.val.(ByteV)
+		if !ok || b.i != i || in.fl.rootOf(b.id) != r {
+			fail("field-level: byte string assembled from different values (in %s)", in.curFn)
+		}
+	}
+	return top.id
+}
+
+func (in *Interp) fwriteBytes(cells []*Cell, id int) {
+	if len(cells) != 32 {
+		fail("field-level: byte string of %d bytes (in %s)", len(cells), in.curFn)
+	}
+	for i, c := range cells {
+		c.val = ByteV{id, i}
+	}
+}
+
+func sliceCells(v Value, what string) []*Cell {
+	s, ok := v.(SliceV)
+	if !ok {
+		fail("field-level: %s is %T, not a byte slice", what, v)
+	}
+	return s.cells
 }
 
 func (e *FEmitter) emit(o FOp) int {
@@ -171,6 +245,15 @@ func (in *Interp) fchoice(v Value) (conc int, id int) {
 
 // fcall intercepts the leaf operations of internal/field.
 func (in *Interp) fcall(fn *ssa.Function, args []Value) (Value, bool) {
+	if fn.Pkg != nil && fn.Pkg.Pkg.Path() == modulePath+"/internal/subtle" && fn.Name() == "ConstantTimeCompareBytes" {
+		a, b := sliceCells(args[0], "argument"), sliceCells(args[1], "argument")
+		_, ca := a[0].val.(Conc)
+		_, cb := b[0].val.(Conc)
+		if len(a) == 32 && len(b) == 32 && !(ca && cb) {
+			return BoolF{in.fl.emit(FOp{kind: "bytesEq", a: in.freadBytes(a), b: in.freadBytes(b)})}, true
+		}
+		return nil, false
+	}
 	if fn.Pkg == nil || fn.Pkg.Pkg.Path() != modulePath+"/internal/field" {
 		return nil, false
 	}
@@ -271,7 +354,21 @@ func (in *Interp) fcall(fn *ssa.Function, args []Value) (Value, bool) {
 			ok := fl.emit(FOp{kind: "sqrtOk", a: u, b: v})
 			return TupleV{[]Value{args[0], BoolF{ok}}}, true
 		}
-	case "SetBytes", "SetBytesWide", "ToBytes", "reduce", "UnsafeInner":
+	case "SetBytes":
+		cells := sliceCells(args[1], "argument of SetBytes")
+		if len(cells) != 32 {
+			return nil, false // the length error path is ordinary code
+		}
+		in.fwrite(elemPtr(args[0], "receiver"), fl.emit(FOp{kind: "fromBytes", a: in.freadBytes(cells)}))
+		return TupleV{[]Value{args[0], NilV{}}}, true
+	case "ToBytes":
+		cells := sliceCells(args[1], "argument of ToBytes")
+		if len(cells) != 32 {
+			return nil, false
+		}
+		in.fwriteBytes(cells, fl.emit(FOp{kind: "toBytes", a: in.fread(elemPtr(args[0], "receiver"))}))
+		return NilV{}, true
+	case "SetBytesWide", "reduce", "UnsafeInner":
 		fail("field-level: %s is not modelled at field level", name)
 	}
 	return nil, false
@@ -279,6 +376,39 @@ func (in *Interp) fcall(fn *ssa.Function, args []Value) (Value, bool) {
 
 // fbinop: integer operations on predicate results.
 func (in *Interp) fbinop(op token.Token, x, y Value) (Value, bool) {
+	// bytes of encodings: the sign bit of an encoding (b[31] >> 7), and b[31] ^= sign << 7
+	if bv, ok := x.(ByteV); ok {
+		if c, isC := y.(Conc); isC && op == token.SHR && bv.i == 31 && c.v.Cmp(big.NewInt(7)) == 0 {
+			return BoolF{in.fl.emit(FOp{kind: "topBit", a: bv.id})}, true
+		}
+		if b7, is7 := y.(Bit7); is7 && op == token.XOR && bv.i == 31 {
+			id := in.fl.emit(FOp{kind: "xorTop", a: bv.id, b: b7.id})
+			in.fl.root[id] = bv.id
+			return ByteV{id, 31}, true
+		}
+		fail("field-level: %s on a byte of an encoding (in %s)", op, in.curFn)
+	}
+	if _, ok := y.(ByteV); ok {
+		fail("field-level: %s on a byte of an encoding (in %s)", op, in.curFn)
+	}
+	if b, ok := x.(BoolF); ok && op == token.SHL {
+		if c, isC := y.(Conc); isC && c.v.Cmp(big.NewInt(7)) == 0 {
+			return Bit7{b.id}, true
+		}
+	}
+	if b, ok := x.(BoolF); ok && (op == token.EQL || op == token.NEQ) {
+		if c, isC := y.(Conc); isC && (c.v.Sign() == 0 || c.v.Cmp(big.NewInt(1)) == 0) {
+			// (b == 1), (b != 0): true iff b != 0;  (b == 0), (b != 1): true iff b == 0
+			pos := (op == token.EQL) == (c.v.Sign() != 0)
+			return CondF{b.id, !pos}, true
+		}
+	}
+	if cx, ok := x.(CondF); ok && (op == token.EQL || op == token.NEQ) {
+		if c, isC := y.(Conc); isC {
+			same := (op == token.EQL) == (c.v.Sign() != 0)
+			return CondF{cx.id, cx.neg != !same}, true
+		}
+	}
 	bx, okx := x.(BoolF)
 	by, oky := y.(BoolF)
 	if !okx && !oky {
@@ -336,28 +466,68 @@ type FResult struct {
 	T       FTarget
 	Ops     []FOp
 	Nin     int
-	InKinds []string
+	InKinds []string // "fe" | "bool" | "ybytes"
 	Outs    []int
 	NLimbs  int
 	Err     string
+	Tree    *FNode // non-nil when the function branches on predicate values
+	HasErr  bool   // the function returns an error value
 }
 
-func ftranslate(prog *ssa.Program, pkg *ssa.Package, globals map[*ssa.Global]*Cell, t FTarget) (res FResult) {
-	res.T = t
-	defer func() {
-		if e := recover(); e != nil {
-			if te, ok := e.(transErr); ok {
-				res.Err = te.msg
-				return
-			}
-			res.Err = fmt.Sprintf("internal error: %v", e)
-		}
-	}()
+// FNode: run Ops, then branch on predicate value Cond (then-branch iff (value != 0) != Neg), or stop: Ok = the function
+// returned a nil error (or has no error result), Outs = its outputs (empty on an error leaf).
+type FNode struct {
+	Ops  []FOp
+	Cond int
+	Neg  bool
+	T, E *FNode
+	Leaf bool
+	Ok   bool
+	Outs []int
+}
+
+func isBytes32(t types.Type) bool {
+	a, ok := t.Underlying().(*types.Array)
+	if !ok || a.Len() != 32 {
+		return false
+	}
+	b, ok := a.Elem().Underlying().(*types.Basic)
+	return ok && b.Kind() == types.Uint8
+}
+
+func objCells(c *Cell, fe func(*Cell), by func(*Cell)) {
+	if isElem(c.typ) {
+		fe(c)
+		return
+	}
+	if isBytes32(c.typ) {
+		by(c)
+		return
+	}
+	for _, k := range c.kids {
+		objCells(k, fe, by)
+	}
+}
+
+type frunRes struct {
+	ops       []FOp
+	nin       int
+	inKinds   []string
+	outs      []int
+	ok        bool
+	hasErr    bool
+	decisions []fdec
+	nlimbs    int
+	wrap      string
+}
+
+// frun: one execution of the target following `script` at branches on predicate values
+func frun(prog *ssa.Program, pkg *ssa.Package, globals map[*ssa.Global]*Cell, t FTarget, script []bool) (res frunRes) {
 	fn := findFunc(pkg, t.Fn)
 	if fn == nil {
 		fail("function %s not found in %s", t.Fn, t.Pkg)
 	}
-	fl := &FEmitter{consts: map[string]int{}, summ: map[string]bool{}}
+	fl := &FEmitter{consts: map[string]int{}, summ: map[string]bool{}, script: script, root: map[int]int{}}
 	for _, s := range t.Summarise {
 		fl.summ[s] = true
 	}
@@ -381,12 +551,21 @@ func ftranslate(prog *ssa.Program, pkg *ssa.Package, globals map[*ssa.Global]*Ce
 				fail("arg %d of %s is not a pointer", i, t.Name)
 			}
 			c := newCell(p.Elem())
-			elemCells(c, func(e *Cell) {
-				res.NLimbs = len(limbCells(e))
+			objCells(c, func(e *Cell) {
+				res.nlimbs = len(limbCells(e))
 				if kind != "out" {
 					in.fwrite(e, fl.nin)
 					fl.nin++
 					fl.inKinds = append(fl.inKinds, "fe")
+				}
+				if kind != "in" {
+					outCells = append(outCells, e)
+				}
+			}, func(e *Cell) {
+				if kind != "out" {
+					in.fwriteBytes(e.kids, fl.nin)
+					fl.nin++
+					fl.inKinds = append(fl.inKinds, "ybytes")
 				}
 				if kind != "in" {
 					outCells = append(outCells, e)
@@ -408,60 +587,146 @@ func ftranslate(prog *ssa.Program, pkg *ssa.Package, globals map[*ssa.Global]*Ce
 			fail("unknown field-level arg spec %q", spec)
 		}
 	}
-	res.Wrap = fgenWrap(fn, t)
-	// inputs are numbered first: shift nothing, ops were not emitted yet
+	res.wrap = fgenWrap(fn, t)
 	if len(fl.ops) != 0 {
 		fail("internal: ops emitted before inputs were numbered")
 	}
 	ret := in.call(fn, args, nil)
-	for _, c := range outCells {
-		res.Outs = append(res.Outs, in.fread(c))
-	}
-	if t.Ret == "out" {
-		var walk func(v Value, ty types.Type)
-		walk = func(v Value, ty types.Type) {
-			if isElem(ty) {
-				c := newCell(ty)
-				c.store(v)
-				res.Outs = append(res.Outs, in.fread(c))
+	res.ok = true
+	var retOuts []int
+	rs := fn.Signature.Results()
+	var walk func(v Value, ty types.Type)
+	walk = func(v Value, ty types.Type) {
+		if isElem(ty) {
+			c := newCell(ty)
+			c.store(v)
+			retOuts = append(retOuts, in.fread(c))
+			return
+		}
+		if isBytes32(ty) {
+			c := newCell(ty)
+			c.store(v)
+			retOuts = append(retOuts, in.freadBytes(c.kids))
+			return
+		}
+		if n, ok := ty.(*types.Named); ok && n.Obj().Name() == "error" && n.Obj().Pkg() == nil {
+			res.hasErr = true
+			if _, isNil := v.(NilV); !isNil {
+				res.ok = false
+			}
+			return
+		}
+		switch u := ty.Underlying().(type) {
+		case *types.Pointer:
+			if p, ok := v.(PtrV); ok && t.Ret == "out" {
+				objCells(p.c, func(e *Cell) { retOuts = append(retOuts, in.fread(e)) }, func(e *Cell) { retOuts = append(retOuts, in.freadBytes(e.kids)) })
+			}
+		case *types.Array:
+			for _, e := range v.(AggV).elems {
+				walk(e, u.Elem())
+			}
+		case *types.Struct:
+			for i, e := range v.(AggV).elems {
+				walk(e, u.Field(i).Type())
+			}
+		case *types.Tuple:
+			for i, e := range v.(TupleV).elems {
+				walk(e, u.At(i).Type())
+			}
+		case *types.Basic:
+			if t.Ret != "out" {
 				return
 			}
-			switch u := ty.Underlying().(type) {
-			case *types.Pointer:
-				if p, ok := v.(PtrV); ok {
-					elemCells(p.c, func(e *Cell) { res.Outs = append(res.Outs, in.fread(e)) })
+			switch b := v.(type) {
+			case BoolF:
+				retOuts = append(retOuts, b.id)
+			case CondF:
+				if b.neg {
+					one := fl.emit(FOp{kind: "bconst", n: big.NewInt(1)})
+					retOuts = append(retOuts, fl.emit(FOp{kind: "bxor", a: b.id, b: one}))
+				} else {
+					retOuts = append(retOuts, b.id)
 				}
-			case *types.Array:
-				for _, e := range v.(AggV).elems {
-					walk(e, u.Elem())
-				}
-			case *types.Struct:
-				for i, e := range v.(AggV).elems {
-					walk(e, u.Field(i).Type())
-				}
-			case *types.Tuple:
-				for i, e := range v.(TupleV).elems {
-					walk(e, u.At(i).Type())
-				}
-			case *types.Basic:
-				switch b := v.(type) {
-				case BoolF:
-					res.Outs = append(res.Outs, b.id)
-				case Conc:
-					res.Outs = append(res.Outs, fl.emit(FOp{kind: "bconst", n: b.v}))
-				default:
-					fail("field-level: result of type %s is %T", ty, v)
-				}
+			case Conc:
+				retOuts = append(retOuts, fl.emit(FOp{kind: "bconst", n: b.v}))
+			default:
+				fail("field-level: result of type %s is %T", ty, v)
 			}
 		}
-		rs := fn.Signature.Results()
-		if rs.Len() == 1 {
-			walk(ret, rs.At(0).Type())
-		} else {
-			walk(ret, rs)
+	}
+	// the error result first: on an error leaf nothing else is read
+	if rs.Len() > 0 {
+		last := rs.At(rs.Len() - 1).Type()
+		if n, ok := last.(*types.Named); ok && n.Obj().Name() == "error" && n.Obj().Pkg() == nil {
+			var ev Value = ret
+			if rs.Len() > 1 {
+				ev = ret.(TupleV).elems[rs.Len()-1]
+			}
+			walk(ev, last)
 		}
 	}
-	res.Ops, res.Nin, res.InKinds = fl.ops, fl.nin, fl.inKinds
+	if res.ok {
+		for _, c := range outCells {
+			if isElem(c.typ) {
+				res.outs = append(res.outs, in.fread(c))
+			} else {
+				res.outs = append(res.outs, in.freadBytes(c.kids))
+			}
+		}
+		if rs.Len() == 1 {
+			walk(ret, rs.At(0).Type())
+		} else if rs.Len() > 1 {
+			for i := 0; i < rs.Len(); i++ {
+				walk(ret.(TupleV).elems[i], rs.At(i).Type())
+			}
+		}
+		res.outs = append(res.outs, retOuts...)
+	}
+	res.ops, res.nin, res.inKinds, res.decisions = fl.ops, fl.nin, fl.inKinds, fl.decisions
+	return
+}
+
+func ftranslate(prog *ssa.Program, pkg *ssa.Package, globals map[*ssa.Global]*Cell, t FTarget) (res FResult) {
+	res.T = t
+	defer func() {
+		if e := recover(); e != nil {
+			if te, ok := e.(transErr); ok {
+				res.Err = te.msg
+				return
+			}
+			res.Err = fmt.Sprintf("internal error: %v", e)
+			if os.Getenv("GO2IR_TRACE") != "" {
+				fmt.Fprintf(os.Stderr, "go2ir: internal error in %s: %v\n%s\n", t.Name, e, debug.Stack())
+			}
+		}
+	}()
+	r := frun(prog, pkg, globals, t, nil)
+	res.Wrap, res.Nin, res.InKinds, res.NLimbs, res.HasErr = r.wrap, r.nin, r.inKinds, r.nlimbs, r.hasErr
+	if len(r.decisions) == 0 && r.ok {
+		res.Ops, res.Outs = r.ops, r.outs
+		return
+	}
+	nodes := 0
+	var build func(prefix []bool, from int) *FNode
+	build = func(prefix []bool, from int) *FNode {
+		nodes++
+		if nodes > 4096 {
+			fail("field-level decision tree larger than 4096 nodes")
+		}
+		rr := frun(prog, pkg, globals, t, prefix)
+		if len(rr.decisions) < len(prefix) {
+			fail("internal: decisions are not reproducible")
+		}
+		if len(rr.decisions) == len(prefix) {
+			return &FNode{Ops: rr.ops[from:], Leaf: true, Ok: rr.ok, Outs: rr.outs}
+		}
+		d := rr.decisions[len(prefix)]
+		n := &FNode{Ops: rr.ops[from:d.segEnd], Cond: d.id, Neg: d.neg}
+		n.T = build(append(append([]bool{}, prefix...), true), d.segEnd)
+		n.E = build(append(append([]bool{}, prefix...), false), d.segEnd)
+		return n
+	}
+	res.Tree = build(nil, 0)
 	return
 }
 
@@ -475,9 +740,11 @@ func fopLean(o FOp) string {
 		return fmt.Sprintf(".const %s [%s]", o.n, strings.Join(ls, ", "))
 	case "bconst":
 		return fmt.Sprintf(".bconst %s", o.n)
-	case "add", "sub", "mul", "eq", "bor", "band", "bxor", "sqrtV", "sqrtOk":
+	case "bytesConst":
+		return fmt.Sprintf(".bytesConst %s", o.n)
+	case "add", "sub", "mul", "eq", "bor", "band", "bxor", "sqrtV", "sqrtOk", "xorTop", "bytesEq":
 		return fmt.Sprintf(".%s %d %d", o.kind, o.a, o.b)
-	case "neg", "sq", "sq2", "m121666", "isNeg", "isZero", "inv":
+	case "neg", "sq", "sq2", "m121666", "isNeg", "isZero", "inv", "fromBytes", "toBytes", "topBit":
 		return fmt.Sprintf(".%s %d", o.kind, o.a)
 	case "pow2k":
 		return fmt.Sprintf(".pow2k %d %d", o.a, o.k)
@@ -493,8 +760,12 @@ func fopShallow(o FOp) string {
 	switch o.kind {
 	case "const":
 		return o.n.String()
-	case "bconst":
+	case "bconst", "bytesConst":
 		return o.n.String()
+	case "fromBytes", "toBytes", "topBit":
+		return fmt.Sprintf("FIR.%s %s", o.kind, v(o.a))
+	case "xorTop", "bytesEq":
+		return fmt.Sprintf("FIR.%s %s %s", o.kind, v(o.a), v(o.b))
 	case "add", "sub", "mul":
 		return fmt.Sprintf("Fp.%s %s %s", o.kind, v(o.a), v(o.b))
 	case "neg", "sq", "inv":
@@ -523,6 +794,65 @@ func fopShallow(o FOp) string {
 	panic("fopShallow: " + o.kind)
 }
 
+func ftreeLean(n *FNode, ind string) string {
+	var ops []string
+	for _, o := range n.Ops {
+		ops = append(ops, fopLean(o))
+	}
+	os := "[" + strings.Join(ops, ", ") + "]"
+	if n.Leaf {
+		return fmt.Sprintf("%s.leaf %s %v %s", ind, os, n.Ok, intList(n.Outs))
+	}
+	return fmt.Sprintf("%s.node %s %d %v\n%s(\n%s)\n%s(\n%s)", ind, os, n.Cond, n.Neg, ind, ftreeLean(n.T, ind+" "), ind, ftreeLean(n.E, ind+" "))
+}
+
+func ftreeTxt(n *FNode) string {
+	var ops []string
+	for _, o := range n.Ops {
+		ops = append(ops, fopTxt(o))
+	}
+	os := strings.Join(ops, " ; ")
+	if n.Leaf {
+		ok := "err"
+		if n.Ok {
+			ok = "ok"
+		}
+		outs := strings.Trim(strings.ReplaceAll(intList(n.Outs), " ", ""), "[]")
+		if outs == "" {
+			outs = "-"
+		}
+		return fmt.Sprintf("( L %s | %s %s )", os, ok, outs)
+	}
+	neg := 0
+	if n.Neg {
+		neg = 1
+	}
+	return fmt.Sprintf("( N %s | %d %d %s %s )", os, n.Cond, neg, ftreeTxt(n.T), ftreeTxt(n.E))
+}
+
+// shallow rendering of a tree: nested lets and ifs, `none` on an error leaf
+func ftreeShallow(n *FNode, next int, ind string) string {
+	var sb strings.Builder
+	for _, o := range n.Ops {
+		fmt.Fprintf(&sb, "%slet v%d := %s\n", ind, next, fopShallow(o))
+		next++
+	}
+	if n.Leaf {
+		if !n.Ok {
+			fmt.Fprintf(&sb, "%snone\n", ind)
+			return sb.String()
+		}
+		outs := make([]string, len(n.Outs))
+		for i, o := range n.Outs {
+			outs[i] = fmt.Sprintf("v%d", o)
+		}
+		fmt.Fprintf(&sb, "%ssome [%s]\n", ind, strings.Join(outs, ", "))
+		return sb.String()
+	}
+	fmt.Fprintf(&sb, "%sif FIR.cond v%d %v then\n%s%selse\n%s", ind, n.Cond, n.Neg, ftreeShallow(n.T, next, ind+"  "), ind, ftreeShallow(n.E, next, ind+"  "))
+	return sb.String()
+}
+
 func fopTxt(o FOp) string { return strings.TrimPrefix(strings.NewReplacer("[", "", "]", "", ",", "").Replace(fopLean(o)), ".") }
 
 // fgenWrap: Go source of a closure that runs the REAL function on field elements given as 32-byte strings (stream T2)
@@ -536,7 +866,7 @@ func fgenWrap(fn *ssa.Function, t FTarget) string {
 			return p.Name()
 		})
 	}
-	fmt.Fprintf(&sb, "\tverifFL[%q] = func(in [][]byte, bools []int) (out [][]byte, bout []int) {\n", t.Group+"."+t.Name)
+	fmt.Fprintf(&sb, "\tverifFL[%q] = func(in [][]byte, bools []int) (out [][]byte, bout []int, failed bool) {\n", t.Group+"."+t.Name)
 	var callArgs, post []string
 	for i, spec := range t.Args {
 		pt := fn.Params[i].Type()
@@ -570,26 +900,29 @@ func fgenWrap(fn *ssa.Function, t FTarget) string {
 		call = fmt.Sprintf("%s(%s)", fn.Name(), strings.Join(callArgs, ", "))
 	}
 	nres := fn.Signature.Results().Len()
-	if t.Ret == "out" && nres > 0 {
+	if nres > 0 {
 		rs := make([]string, nres)
+		var pre []string
 		for i := range rs {
 			rs[i] = fmt.Sprintf("r%d", i)
-			post = append(post, fmt.Sprintf("\t\tout, bout = verifFLRead(&r%d, out, bout)\n", i))
+			rt := fn.Signature.Results().At(i).Type()
+			if n, ok := rt.(*types.Named); ok && n.Obj().Name() == "error" && n.Obj().Pkg() == nil {
+				pre = append(pre, fmt.Sprintf("\t\tif r%d != nil {\n\t\t\treturn nil, nil, true\n\t\t}\n", i))
+			} else if t.Ret == "out" {
+				post = append(post, fmt.Sprintf("\t\tout, bout = verifFLRead(&r%d, out, bout)\n", i))
+			} else {
+				pre = append(pre, fmt.Sprintf("\t\t_ = r%d\n", i))
+			}
 		}
 		fmt.Fprintf(&sb, "\t\t%s := %s\n", strings.Join(rs, ", "), call)
-	} else if nres > 0 {
-		blanks := make([]string, nres)
-		for i := range blanks {
-			blanks[i] = "_"
-		}
-		fmt.Fprintf(&sb, "\t\t%s = %s\n", strings.Join(blanks, ", "), call)
+		post = append(pre, post...)
 	} else {
 		fmt.Fprintf(&sb, "\t\t%s\n", call)
 	}
 	for _, l := range post {
 		sb.WriteString(l)
 	}
-	sb.WriteString("\t\t_, _ = in, bools\n\t\treturn out, bout\n\t}\n")
+	sb.WriteString("\t\t_, _ = in, bools\n\t\treturn out, bout, false\n\t}\n")
 	return sb.String()
 }
 
@@ -620,11 +953,51 @@ func frender(results []FResult, leanDir, txt, gowrap string) int {
 		} else {
 			kinds := make([]string, len(r.InKinds))
 			for i, k := range r.InKinds {
-				kinds[i] = map[string]string{"fe": "true", "bool": "false"}[k]
+				kinds[i] = map[string]string{"fe": "true", "bool": "false", "ybytes": "false"}[k]
 			}
 			fmt.Fprintf(&sb, "def %s_nin : Nat := %d\n", r.T.Name, r.Nin)
 			fmt.Fprintf(&sb, "def %s_nlimbs : Nat := %d\n", r.T.Name, r.NLimbs)
 			fmt.Fprintf(&sb, "def %s_inFe : List Bool := [%s]\n", r.T.Name, strings.Join(kinds, ", "))
+			kindStr0 := ""
+			for _, k := range r.InKinds {
+				kindStr0 += k[:1]
+			}
+			fmt.Fprintf(&sb, "def %s_inKinds : String := %q\n", r.T.Name, kindStr0)
+			if r.Tree != nil {
+				fmt.Fprintf(&sb, "def %s_tree : FTree :=\n%s\n\n", r.T.Name, ftreeLean(r.Tree, " "))
+				sb.WriteString("/-- the same tree as an ordinary Lean function (`none` = the function returned an error) -/\n")
+				fmt.Fprintf(&sb, "def %s_tsh", r.T.Name)
+				if r.Nin > 0 {
+					sb.WriteString(" (")
+					for i := 0; i < r.Nin; i++ {
+						fmt.Fprintf(&sb, "v%d ", i)
+					}
+					sb.WriteString(": Nat)")
+				}
+				sb.WriteString(" : Option (List Nat) :=\n")
+				sb.WriteString(ftreeShallow(r.Tree, r.Nin, "  "))
+				var ins0, ins1 []string
+				for i, k := range r.InKinds {
+					for s, dst := range []*[]string{&ins0, &ins1} {
+						if k == "bool" {
+							*dst = append(*dst, fmt.Sprint((s+i)%2))
+						} else {
+							x := new(big.Int).Exp(big.NewInt(int64(3+2*i+7*s)), big.NewInt(int64(97+i)), p25519)
+							*dst = append(*dst, x.String())
+						}
+					}
+				}
+				fmt.Fprintf(&sb, "\n/-- deep tree and shallow function agree on two sample input vectors -/\ndef %s_linkSample : Bool :=\n  (%s_tree.eval [%s] == %s_tsh %s) &&\n  (%s_tree.eval [%s] == %s_tsh %s)\n",
+					r.T.Name, r.T.Name, strings.Join(ins0, ", "), r.T.Name, strings.Join(ins0, " "), r.T.Name, strings.Join(ins1, ", "), r.T.Name, strings.Join(ins1, " "))
+				fmt.Fprintf(&txtb, "ftree %s.%s %d %s %s\n", g, r.T.Name, r.Nin, kindStr0, ftreeTxt(r.Tree))
+				fmt.Fprintf(&sb, "\nend Voi.Gen.%s\n", g)
+				if leanDir != "" {
+					if err := os.WriteFile(filepath.Join(leanDir, "FL_"+g+"_"+r.T.Name+".lean"), []byte(sb.String()), 0o644); err != nil {
+						panic(err)
+					}
+				}
+				continue
+			}
 			fmt.Fprintf(&sb, "def %s_outs : List Nat := %s\n", r.T.Name, intList(r.Outs))
 			fmt.Fprintf(&sb, "def %s_prog : List FOp := [\n", r.T.Name)
 			for i, o := range r.Ops {
